@@ -56,6 +56,9 @@ S = {
  "C18_1": ("C18", "registry.rs update_mappings: maps matched by file name only instead of the canonical path", "two different objects with the same basename mapped at once", None, ""),
  "C18_2": ("C18", "breakpoint.rs refresh_deferred: a request failing with a non-NoSuitablePlace error is dropped", "a deferred breakpoint by address whose library is not mapped yet", None, ""),
  "C18_3": ("C18", "breakpoint.rs try_into_brkpt: the two None arms merged (file-less template always resolved against the main executable)", "address breakpoint set before start pointing into a startup-linked shared library", None, ""),
+ "C03_1": ("C03", "tracer.rs apply_new_status: a temporary step breakpoint stops any thread (ownership test `pid == brkpt.pid` dropped)", "a second thread passing the planted address during `next`/`finish`", None, ""),
+ "C03_2": ("C03", "die_ref.rs inline_ranges: for_each_children instead of for_each_children_recursive", "an #[inline(always)] callee called inside a nested lexical block, then `next`", None, ""),
+ "C03_3": ("C03", "mod.rs stepi: ecx_restore_frame() dropped", "stop at a breakpoint, select frame 1, stepi", None, ""),
 }
 def main():
     res = {}
